@@ -14,6 +14,16 @@
   result value `Res.panic` / `none`. `get_pixel` is claimed for the 64 x 64 cells of the display
   (`Inside p`), which is what the property quantifies over; what the unchecked index does for
   other arguments is recorded as observations at the end.
+
+  "Round trip" has two directions; ONE is proved here:
+    [P] display -> text -> display:  `from_pattern(Debug rows of d) == d` for every display `d` whose
+        colours belong to the colour set of its type (`pattern_debug_roundtrip`; the rows, not the framed
+        `{:?}` text), with `from_pattern_cells` saying what `from_pattern` stores for a well-formed pattern;
+    [V] text -> display -> text:     `Debug(from_pattern(p))` is `p` again (normalised: rows padded to 64
+        columns, trailing empty rows dropped, hex digits upper-case) — no theorem; carried by the
+        `mock.pattern` stream (`dbg=`) and the oracle class `debug-rows`.
+  The list of colour types these statements range over (`allCT`, twelve types) is tied to the source's
+  `impl ColorMapping for` list in EG/Props/C20/Types.lean.
 -/
 import EG.Lemmas.Mock
 import EG.Lemmas.MockArea
@@ -346,10 +356,10 @@ theorem from_pattern_cells (ct : CT) (pat : List (List Char)) (rows : List (List
 example : (∀ r ∈ [['#', ' '], ['.', '#']], rowLen r = 2) ∧
     convRows .binary [['#', ' '], ['.', '#']] = some [[some 1, none], [some 0, some 1]] := by decide
 
--- [V] `Debug` of `from_pattern(pattern)` is the pattern again (rows padded to 64 columns, trailing empty rows dropped, lower-case hex digits printed upper-case): carried by correspondence + oracle only (streams mock.pattern: `dbg=`, oracle class debug-rows)
+-- [V] the direction text -> display -> text of the round trip: `Debug` of `from_pattern(pattern)` is the pattern again (rows padded to 64 columns, trailing empty rows dropped, lower-case hex digits printed upper-case): carried by correspondence + oracle only (streams mock.pattern: `dbg=`, oracle class debug-rows); the proved direction is display -> text -> display (`pattern_debug_roundtrip`)
 -- [V] `from_pattern` panics on over-wide / over-tall / ragged patterns and unknown characters (which assertion fires first): the model `fromPattern` transcribes the four checks arm for arm and is compared on every `mock.pattern` op (`err=`); no separate theorem
 -- [V] the framing text of `{:?}` ("MockDisplay[", "(n empty rows skipped)", "]"): compared through the hash `dh=` of the complete text on every `mock.hist` op
--- [V] colours outside a type's colour set (`Gray8` values that are not multiples of 0x11, RGB colours other than the eight named ones) print as '?', which `from_pattern` rejects: observed by the oracle (class debug-unrepresentable-not-rejected), not a theorem
+-- [V] colours outside a type's colour set (`Gray8` values that are not multiples of 0x11, RGB colours other than the eight named ones) print as '?', which `from_pattern` rejects: outside the property's quantifier ("patterns over each colour type's character set"); the model follows the code and the harness only counts the outcome (`obs:debug-unrepresentable:rt-*`), no oracle class, no theorem
 -- [V] `get_pixel` for arguments outside the 64 x 64 cells is not claimed; what the code does there is recorded below (`get_pixel_outside_*`) and compared on the `mock.get` stream
 
 /-! ### Observations (not claims of the property): `get_pixel` outside the display -/
